@@ -25,6 +25,14 @@ namespace bloc
 
 std::string IntegerExpression::unparse(Context& ctx) const
 {
+  /* a negative constant comes from the hexadecimal notation of the 64 bits
+   * (the minus sign is an operator): print it back as such */
+  if (*v.integer() < 0)
+  {
+    char buf[24];
+    snprintf(buf, sizeof(buf), "0x%" PRIx64, (uint64_t)*v.integer());
+    return buf;
+  }
   return Value::readableInteger(*v.integer());
 }
 
